@@ -42,8 +42,10 @@ class BufSizeEstimator:
         max_size = 0
         for zone_name, zone_info in self.zone_infos.items():
             zone_specifier = ZoneSpecifier(zone_info)
+            # The C++ ExtendedZoneProcessor accepts every year in
+            # [startYear - 1, untilYear], so include both end years.
             (max_actives, max_buffer_size) = zone_specifier.get_buffer_sizes(
-                self.start_year, self.until_year)
+                self.start_year - 1, self.until_year + 1)
 
             # The TransitionStorage size should be one more than the estimate
             # because TransitionStorage.getFreeAgent() needs one slot even if
